@@ -40,81 +40,95 @@ def summary_for(pid):
             'false_alarms': [r.split()[0] for r in rows if 'FALSE ALARM' in r], 'silent_benign': sum(' silent' in r for r in rows), 'rows': rows[:60]}
 
 
+def _corpus_entry(e, have):
+    tmp = scratch()
+    try:
+        path = os.path.join(tmp, 'repo', 'wgsl_to_wgpu', 'src', e['file'])
+        src = open(path).read()
+        for ed in e['edits']:
+            if ed['find'] not in src:
+                return (e['id'], e['kind'], 'SKIP (edit does not apply to the current tree)'), True
+            src = src.replace(ed['find'], ed['replace'])
+        open(path, 'w').write(src)
+        if e['kind'] == 'mutant':
+            pids = [p for p in [e['property']] + e.get('also', []) if p in have]
+            if not pids:
+                return (e['id'], e['kind'], f"SKIP (check {e['property']} not built)"), True
+            res = run_checks(tmp, have if os.environ.get('SELFTEST_ALL') else pids)
+            hit = {p: r for p, r in res.items() if r[0] != 0}
+            good = any(p in hit for p in pids)
+            return (e['id'], e['kind'], ('DETECTED by ' + ', '.join(f'{p}:{r[1][:2]}' for p, r in hit.items())) if good else 'MISSED'), good
+        res = run_checks(tmp, have)
+        hit = {p: r for p, r in res.items() if r[0] != 0}
+        return (e['id'], e['kind'], 'silent' if not hit else 'FALSE ALARM ' + ', '.join(f'{p}:{r[1][:2]}' for p, r in hit.items())), not hit
+    finally:
+        shutil.rmtree(tmp, ignore_errors=True)
+
+
+def _seeded_entry(d, have):
+    sdir = os.path.join(HERE, 'seeded')
+    meta = json.load(open(os.path.join(sdir, d, 'meta.json')))
+    tmp = scratch()
+    try:
+        # strict application (no fuzz): a seed written before a later fix: commit must not be half-applied onto the fixed code
+        r = subprocess.run(['git', 'apply', '--whitespace=nowarn', os.path.join(sdir, d, 'patch.diff')], cwd=tmp + '/repo', stdout=subprocess.DEVNULL, stderr=subprocess.DEVNULL)
+        baseline = {}
+        if r.returncode != 0:
+            # the seed predates a later fix: commit in /repo: replay it on the commit it was written for and report only what the
+            # patch adds over that base
+            base = meta.get('confirmed', {}).get('base_commit')
+            shutil.rmtree(tmp + '/repo', ignore_errors=True)
+            os.makedirs(tmp + '/repo')
+            a = subprocess.run(f'git -C /repo archive {base} | tar -x -C {tmp}/repo', shell=True)
+            if not base or a.returncode != 0:
+                return (d, 'seeded', 'SKIP (patch does not apply)'), True
+            baseline = {p: set(r_[1]) for p, r_ in run_checks(tmp, have).items()}
+            r = subprocess.run(['patch', '-p1', '-s', '-i', os.path.join(sdir, d, 'patch.diff')], cwd=tmp + '/repo')
+            if r.returncode != 0:
+                return (d, 'seeded', 'SKIP (patch does not apply to its own base)'), True
+        res = run_checks(tmp, have)
+        hit = {p: (r_[0], [k for k in r_[1] if k not in baseline.get(p, set())]) for p, r_ in res.items() if r_[0] != 0}
+        hit = {p: r_ for p, r_ in hit.items() if r_[1] or not baseline}
+        if os.environ.get('SELFTEST_RECORD'):
+            meta['detected_by'] = {p: r[1][:4] for p, r in hit.items()}
+            json.dump(meta, open(os.path.join(sdir, d, 'meta.json'), 'w'), indent=1)
+        return (d, 'seeded', ('DETECTED by ' + ', '.join(f'{p}:{r[1][:2]}' for p, r in hit.items())) if hit else 'MISSED'), bool(hit)
+    finally:
+        shutil.rmtree(tmp, ignore_errors=True)
+
+
+def _benign_entry(bdir, fn, name, have):
+    tmp = scratch()
+    try:
+        r = subprocess.run(['patch', '-p1', '-s', '-i', os.path.join(bdir, fn)], cwd=tmp + '/repo', stdout=subprocess.DEVNULL, stderr=subprocess.DEVNULL)
+        if r.returncode != 0:
+            return (name, 'benign', 'SKIP (patch does not apply)'), True
+        res = run_checks(tmp, have)
+        hit = {p: r_ for p, r_ in res.items() if r_[0] != 0}
+        return (name, 'benign', 'silent' if not hit else 'FALSE ALARM ' + ', '.join(f'{p}:{r_[1][:2]}' for p, r_ in hit.items())), not hit
+    finally:
+        shutil.rmtree(tmp, ignore_errors=True)
+
+
 def main(args):
+    """SELFTEST_JOBS=<n> replays n entries concurrently (each on its own scratch copy; the engines' caches are keyed by tree hash)."""
+    from concurrent.futures import ThreadPoolExecutor
     have = built()
     only = set(a for a in args if not a.startswith('-'))
     corpus = json.load(open(os.path.join(HERE, 'selftest', 'corpus.json')))['entries']
-    results = []
-    ok_all = True
+    tasks = []
     for e in corpus:
         if only and e['id'] not in only and e['property'] not in only:
             continue
-        tmp = scratch()
-        try:
-            path = os.path.join(tmp, 'repo', 'wgsl_to_wgpu', 'src', e['file'])
-            src = open(path).read()
-            applied = True
-            for ed in e['edits']:
-                if ed['find'] not in src:
-                    applied = False
-                    break
-                src = src.replace(ed['find'], ed['replace'])
-            if not applied:
-                results.append((e['id'], e['kind'], 'SKIP (edit does not apply to the current tree)'))
-                continue
-            open(path, 'w').write(src)
-            if e['kind'] == 'mutant':
-                pids = [p for p in [e['property']] + e.get('also', []) if p in have]
-                if not pids:
-                    results.append((e['id'], e['kind'], f"SKIP (check {e['property']} not built)"))
-                    continue
-                res = run_checks(tmp, have if os.environ.get('SELFTEST_ALL') else pids)
-                hit = {p: r for p, r in res.items() if r[0] != 0}
-                good = any(p in hit for p in pids)
-                ok_all &= good
-                results.append((e['id'], e['kind'], ('DETECTED by ' + ', '.join(f'{p}:{r[1][:2]}' for p, r in hit.items())) if good else 'MISSED'))
-            else:
-                res = run_checks(tmp, have)
-                hit = {p: r for p, r in res.items() if r[0] != 0}
-                ok_all &= not hit
-                results.append((e['id'], e['kind'], 'silent' if not hit else 'FALSE ALARM ' + ', '.join(f'{p}:{r[1][:2]}' for p, r in hit.items())))
-        finally:
-            shutil.rmtree(tmp, ignore_errors=True)
+        tasks.append((_corpus_entry, (e, have)))
     sdir = os.path.join(HERE, 'seeded')
     for d in sorted(os.listdir(sdir)) if os.path.isdir(sdir) else []:
         pid = d.split('-')[0]
         if only and d not in only and pid not in only:
             continue
-        meta = json.load(open(os.path.join(sdir, d, 'meta.json')))
-        tmp = scratch()
-        try:
-            # strict application (no fuzz): a seed written before a later fix: commit must not be half-applied onto the fixed code
-            r = subprocess.run(['git', 'apply', '--whitespace=nowarn', os.path.join(sdir, d, 'patch.diff')], cwd=tmp + '/repo', stdout=subprocess.DEVNULL, stderr=subprocess.DEVNULL)
-            baseline = {}
-            if r.returncode != 0:
-                # the seed predates a later fix: commit in /repo: replay it on the commit it was written for and report only what the
-                # patch adds over that base
-                base = meta.get('confirmed', {}).get('base_commit')
-                shutil.rmtree(tmp + '/repo', ignore_errors=True)
-                os.makedirs(tmp + '/repo')
-                a = subprocess.run(f'git -C /repo archive {base} | tar -x -C {tmp}/repo', shell=True)
-                if not base or a.returncode != 0:
-                    results.append((d, 'seeded', 'SKIP (patch does not apply)'))
-                    continue
-                baseline = {p: set(r_[1]) for p, r_ in run_checks(tmp, have).items()}
-                r = subprocess.run(['patch', '-p1', '-s', '-i', os.path.join(sdir, d, 'patch.diff')], cwd=tmp + '/repo')
-                if r.returncode != 0:
-                    results.append((d, 'seeded', 'SKIP (patch does not apply to its own base)'))
-                    continue
-            res = run_checks(tmp, have)
-            hit = {p: (r_[0], [k for k in r_[1] if k not in baseline.get(p, set())]) for p, r_ in res.items() if r_[0] != 0}
-            hit = {p: r_ for p, r_ in hit.items() if r_[1] or not baseline}
-            results.append((d, 'seeded', ('DETECTED by ' + ', '.join(f'{p}:{r[1][:2]}' for p, r in hit.items())) if hit else 'MISSED'))
-            if os.environ.get('SELFTEST_RECORD'):
-                meta['detected_by'] = {p: r[1][:4] for p, r in hit.items()}
-                json.dump(meta, open(os.path.join(sdir, d, 'meta.json'), 'w'), indent=1)
-        finally:
-            shutil.rmtree(tmp, ignore_errors=True)
+        if not os.path.exists(os.path.join(sdir, d, 'meta.json')):
+            continue
+        tasks.append((_seeded_entry, (d, have)))
     bdir = os.path.join(HERE, 'selftest', 'benign')
     tdir = os.path.join(HERE, 'selftest', 'twins')
     # twins: the refactoring part of a refactoring-plus-defect seed with the defect repaired by hand (behaviour-preserving); the ones listed in
@@ -122,27 +136,29 @@ def main(args):
     limits = json.load(open(os.path.join(tdir, 'LIMITS.json'))) if os.path.exists(os.path.join(tdir, 'LIMITS.json')) else {}
     entries = [(bdir, fn, 'benign-' + fn[:-5]) for fn in (sorted(os.listdir(bdir)) if os.path.isdir(bdir) else []) if fn.endswith('.diff')]
     entries += [(tdir, fn, 'twin-' + fn[:-5]) for fn in (sorted(os.listdir(tdir)) if os.path.isdir(tdir) else []) if fn.endswith('.diff')]
-    for bdir, fn, name in entries:
+    for bd, fn, name in entries:
         if only and name not in only and 'benign' not in only and name.split('-')[1] not in only:
             continue
-        if name.startswith('twin-') and fn[:-5] in limits:
-            results.append((name, 'benign', 'LIMIT (undecided by design: ' + limits[fn[:-5]] + ')'))
+        if name.startswith('twin-') and fn[:-5] in limits and not os.environ.get('SELFTEST_LIMITS'):
+            tasks.append((lambda n, l: ((n, 'benign', 'LIMIT (undecided by design: ' + l + ')'), True), (name, limits[fn[:-5]])))
             continue
-        tmp = scratch()
-        try:
-            r = subprocess.run(['patch', '-p1', '-s', '-i', os.path.join(bdir, fn)], cwd=tmp + '/repo', stdout=subprocess.DEVNULL, stderr=subprocess.DEVNULL)
-            if r.returncode != 0:
-                results.append((name, 'benign', 'SKIP (patch does not apply)'))
-                continue
-            res = run_checks(tmp, have)
-            hit = {p: r_ for p, r_ in res.items() if r_[0] != 0}
-            ok_all &= not hit
-            results.append((name, 'benign', 'silent' if not hit else 'FALSE ALARM ' + ', '.join(f'{p}:{r_[1][:2]}' for p, r_ in hit.items())))
-        finally:
-            shutil.rmtree(tmp, ignore_errors=True)
+        tasks.append((_benign_entry, (bd, fn, name, have)))
+    jobs = max(1, int(os.environ.get('SELFTEST_JOBS', '1') or 1))
+    with ThreadPoolExecutor(max_workers=jobs) as ex:
+        outs = list(ex.map(lambda t: t[0](*t[1]), tasks))
+    results = [o[0] for o in outs]
+    ok_all = all(o[1] for o in outs)
     for r in results:
         print('%-40s %-8s %s' % r)
-    json.dump([{'id': a, 'kind': b, 'result': c} for a, b, c in results], open(os.path.join(HERE, 'selftest', 'last_run.json'), 'w'), indent=1)
+    # last_run.json accumulates: a partial replay updates its own rows and keeps the others
+    lr = os.path.join(HERE, 'selftest', 'last_run.json')
+    try:
+        old = {x['id']: x for x in json.load(open(lr))}
+    except Exception:
+        old = {}
+    for a, b, c in results:
+        old[a] = {'id': a, 'kind': b, 'result': c}
+    json.dump(sorted(old.values(), key=lambda x: (x['kind'], x['id'])), open(lr, 'w'), indent=1)
     return 0 if ok_all else 1
 
 
